@@ -63,7 +63,7 @@ Print Assumptions Tables_dispatch_is_determinism.
 
 (* Methods.  Determinism's methods_of (before and after repair 50ddee1, any oracle) lists the names of exactly the
    methods Universe's MethodsOf(n, true) returns, for every *types.Named n whose origin is the receiver — up to the
-   permutation C13_methods states (Universe.v models package.go:116-144, not the ordering of 146-157). *)
+   permutation C13_methods states ([U.fill_tables] is the loop of package.go:116-144 alone). *)
 Theorem Tables_methods_agree :
   forall fm (o : Det.oracle) p ptr os n,
     Det.shuffles o ->
@@ -81,8 +81,8 @@ Theorem Tables_methods_agree_value :
 Proof. exact methods_agree_value. Qed.
 Print Assumptions Tables_methods_agree_value.
 
-(* With the ordering of package.go:146-157 applied to Universe's list ([sorted_methods_of], key = position) the two
-   are EQUAL (distinct positions). *)
+(* On the tables newPkg leaves behind ([sorted_methods_of pos t] = MethodsOf on [U.sort_methods pos t]: the loop, then
+   the ordering of package.go:146-157 by position) the two are EQUAL (distinct positions). *)
 Theorem Tables_methods_sorted_agree :
   forall (o : Det.oracle) p ptr os n,
     Det.shuffles o ->
